@@ -235,6 +235,9 @@ def run_shard(ctx):
     for key, val in stats.items():
         res.count(key, val)
     res.count('icontract_invariant_evaluations', _inv[0])
+    if ctx.shard == 0:
+        # the threaded test is left out: contracts are checked outside the object's own lock
+        common.repo_tests_with_contracts(res, 'C13', ['tests/test_rolllog.py'], ['tests/test_rolllog.py::TestRollLog::test_threadsafe_read_write_txt'])
     return res
 
 
@@ -259,6 +262,11 @@ def conclusive(agg, tier):
 
 def replay(spec):
     common.quiet_logging()
+    if 'repo_test' in spec:
+        r = common.Result()
+        common.repo_tests_with_contracts(r, 'C13', [spec['repo_test']])
+        print(r.violations[:1] or 'no contract fired in that test on this tree')
+        return 1 if r.violations else 0
     clock = rh.Clock()
     rolllog = rh.install_clock(clock)
     install(rolllog)
